@@ -15,56 +15,64 @@ Theorem C06_generated_facts :
 Proof. pose proof gen_cfg_ok as H. unfold cfg_ok in H. rewrite !Bool.andb_true_iff in H. tauto. Qed.
 
 Section Protocol.
-  Context {E X D C R : Type}.
+  Context {E X D C R I K : Type}.
   Variable api : D -> C -> D * R.
   Variable closed_result : C -> R.
+  Variable pre : I -> list (@msg E X).
+  Variable hnd : D -> I -> D * list (@msg E X).
+  Variable env : D -> K -> option D.
+  Notation cstate := (@cstate E X D C R I K).
+  Notation reachable := (reachable api closed_result pre hnd env).
+  Notation crun := (crun api closed_result pre hnd env).
+  Notation cstep := (cstep api closed_result pre hnd env).
+  Notation reader_step := (reader_step pre hnd).
   Let cf := mkCf (send_in_cs gen_program) (guard_first gen_program).
 
   (* no value is ever sent on a closed channel and no channel is closed twice: for every capacity, every number of
      callers and closers, every consumer behaviour, every interleaving *)
-  Theorem C06_no_panic : forall cap cf' d (s : @cstate E X D C R),
-    reachable api closed_result cap cf' d s -> panicked s = false.
-  Proof. exact (no_panic api closed_result). Qed.
+  Theorem C06_no_panic : forall cap cf' d (s : cstate),
+    reachable cap cf' d s -> panicked s = false.
+  Proof. exact (no_panic api closed_result pre hnd env). Qed.
 
   (* the invariant behind it: Events is closed only once the reader is dead, Errors only in its last two steps … *)
-  Theorem C06_invariant : forall cap cf' d (s : @cstate E X D C R),
-    reachable api closed_result cap cf' d s -> CInv cap s.
-  Proof. exact (cinv_reachable api closed_result). Qed.
+  Theorem C06_invariant : forall cap cf' d (s : cstate),
+    reachable cap cf' d s -> CInv cap s.
+  Proof. exact (cinv_reachable api closed_result pre hnd env). Qed.
 
   (* after Close has been acknowledged (doneResp closed) both channels are closed within two reader steps that are
      always enabled — consumer loops terminate *)
-  Theorem C06_channels_close_promptly : forall cap d (s : @cstate E X D C R),
-    reachable api closed_result cap cf d s -> resp_closed s = true ->
-    exists ls s', only_threads ls /\ List.length ls <= 2 /\ crun api closed_result cap cf s ls = Some s' /\
+  Theorem C06_channels_close_promptly : forall cap d (s : cstate),
+    reachable cap cf d s -> resp_closed s = true ->
+    exists ls s', only_threads ls /\ List.length ls <= 2 /\ crun cap cf s ls = Some s' /\
                   rd s' = RDead /\ ev_closed s' = true /\ er_closed s' = true.
-  Proof. exact (fun cap d s => channels_close_after_close api closed_result cap cf d s). Qed.
+  Proof. exact (fun cap d s => channels_close_after_close api closed_result pre hnd env cap cf d s). Qed.
 
   (* nothing arrives after the close has been observed: once Events is closed the reader is dead and takes no step *)
-  Theorem C06_nothing_after_close : forall cap d (s : @cstate E X D C R),
-    reachable api closed_result cap cf d s -> ev_closed s = true -> rd s = RDead /\ reader_step cap cf s = None.
+  Theorem C06_nothing_after_close : forall cap d (s : cstate),
+    reachable cap cf d s -> ev_closed s = true -> rd s = RDead /\ reader_step cap cf s = None.
   Proof.
-    intros cap d s Hr He. pose proof (ci_ev_closed _ _ (cinv_reachable api closed_result cap cf d s Hr) He) as Hd.
-    exact (conj Hd (reader_dead_stuck cap cf s Hd)).
+    intros cap d s Hr He. pose proof (ci_ev_closed _ _ (cinv_reachable api closed_result pre hnd env cap cf d s Hr) He) as Hd.
+    exact (conj Hd (reader_dead_stuck pre hnd cap cf s Hd)).
   Qed.
 
   (* from then on the API is inert: the guard returns the closed result (ErrClosed / nil / nil) without touching state *)
-  Theorem C06_inert_after_close : forall cap (s : @cstate E X D C R) t c,
+  Theorem C06_inert_after_close : forall cap (s : cstate) t c,
     done_closed s = true -> thr s !! t = Some (CStart c) -> t <> reader_tid ->
-    exists s', cstep api closed_result cap cf s (LThr t) = Some s' /\ thr s' !! t = Some (CDone (closed_result c)) /\
-               data s' = data s /\ mu s' = mu s.
-  Proof. exact (fun cap s t c => inert_after_close api closed_result cap cf s t c gen_guard_first_true). Qed.
+    exists s', cstep cap cf s (LThr t) = Some s' /\ thr s' !! t = Some (CDone (closed_result c)) /\
+               data s' = data s /\ mu s' = mu s /\ lin s' = lin s.
+  Proof. exact (fun cap s t c => inert_after_close api closed_result pre hnd env cap cf s t c gen_guard_first_true). Qed.
 
   (* closed stays closed; done is closed by exactly one step, the critical section of the first Close *)
-  Theorem C06_closed_is_stable : forall cap cf' (s : @cstate E X D C R) l s',
-    cstep api closed_result cap cf' s l = Some s' ->
+  Theorem C06_closed_is_stable : forall cap cf' (s : cstate) l s',
+    cstep cap cf' s l = Some s' ->
     (done_closed s = true -> done_closed s' = true) /\ (file_closed s = true -> file_closed s' = true) /\
     (resp_closed s = true -> resp_closed s' = true) /\ (ev_closed s = true -> ev_closed s' = true) /\
     (er_closed s = true -> er_closed s' = true).
-  Proof. exact (done_stays_closed api closed_result). Qed.
-  Theorem C06_done_closed_by_first_close : forall cap cf' (s : @cstate E X D C R) l s',
-    cstep api closed_result cap cf' s l = Some s' -> done_closed s = false -> done_closed s' = true ->
+  Proof. exact (done_stays_closed api closed_result pre hnd env). Qed.
+  Theorem C06_done_closed_by_first_close : forall cap cf' (s : cstate) l s',
+    cstep cap cf' s l = Some s' -> done_closed s = false -> done_closed s' = true ->
     exists t, l = LThr t /\ t <> reader_tid /\ thr s !! t = Some KInCs /\ thr s' !! t = Some KCloseFile.
-  Proof. exact (done_closed_by api closed_result). Qed.
+  Proof. exact (done_closed_by api closed_result pre hnd env). Qed.
 End Protocol.
 
 Print Assumptions C06_generated_facts.
